@@ -59,6 +59,7 @@ SameName(a, b, nocase) == IF nocase THEN Lower(a) = Lower(b) ELSE a = b
 RECURSIVE InitOpts(_)
 InitOpt(d) ==
   [name  |-> d.name, type |-> d.type, flags |-> d.flags, cb |-> d.cb,
+   sub   |-> d.sub, fn |-> d.fn,
    vals  |-> IF d.type = "sec"
                THEN IF "MULTI" \in d.flags THEN <<>>
                     ELSE <<[title |-> Null, opts |-> InitOpts(d.sub)]>>
@@ -73,6 +74,11 @@ InitOpt(d) ==
 InitOpts(decls) == [i \in 1..Len(decls) |-> InitOpt(decls[i])]
 
 NewSection(decl, title) == [title |-> title, opts |-> InitOpts(decl.sub)]
+
+(* an option created on the fly in a free-form key=value section (cfg_addopt) *)
+FreeKey(name) ==
+  [name |-> name, type |-> "str", flags |-> {}, cb |-> {}, sub |-> <<>>, fn |-> "",
+   vals |-> <<>>, reset |-> FALSE, mod |-> FALSE, cmt |-> Null]
 
 (* index of the option called name in opts, 0 if none *)
 FindOpt(opts, name, nocase) ==
